@@ -315,6 +315,8 @@ func (in *Interp) runPath(fn *ssa.Function, spec RunSpec, item *WorkItem) (reaso
 	in.maxFree = -1
 	if spec.FreeSw > 0 {
 		in.maxFree = spec.FreeSw
+	} else if spec.FreeSw < 0 {
+		in.maxFree = 0 // deterministic successor at blocking points
 	}
 	in.raceOn = spec.Race
 	in.mapOrder = spec.MapOrder
